@@ -35,7 +35,7 @@ Proof. eexists. split; vm_compute; reflexivity. Qed.
 (* the hypotheses of the main theorems are satisfiable: this program (timeouts, a removal, a raising callback,
    a failing future, a slow callback) runs to idle within fuel_for *)
 Definition demo : body :=
-  Body 0 [OTo FAbs 4 leaf; OTo FLater 4 (Body 1 [ORm 0] RetNone); OTo FDelta 2 (Body 2 [OAdv 5; OTo FCallAt 3 leaf] (RaiseE 7));
+  Body 0 [OTo FAbs 4 leaf; OTo FLater 4 (Body 1 [ORm 0] RetNone); OTo (FDelta 0) 2 (Body 2 [OAdv 5; OTo FCallAt 3 leaf] (RaiseE 7)); OTo (FDelta (-1)) 3 leaf; OTo (FDelta 1) (-2) leaf;
           OCb (Body 3 [] (RetFut 0)); OAf 0 (Body 4 [] RetVal); OCb (Body 5 [OSe 0 9; OSr 0 1] RetNone)] RetNone.
 
 Example demo_runs_to_idle : snd (run_loop (fuel_for demo) (init_prog demo)) = Idle.
@@ -52,7 +52,7 @@ Definition leaves : list body :=
 
 Definition alphabet : list op :=
   map OCb leaves ++
-  flat_map (fun lf => [OTo FAbs 0 lf; OTo FLater 2 lf; OTo FDelta 2 lf; OTo FCallAt 3 lf; OTo FAbs (-1) lf])
+  flat_map (fun lf => [OTo FAbs 0 lf; OTo FLater 2 lf; OTo (FDelta 0) 2 lf; OTo FCallAt 3 lf; OTo FAbs (-1) lf])
            (firstn 3 leaves) ++
   [OAdv 2; ORm 0; ORm 1; OAf 0 leaf; OAf 0 (Body 0 [] (RaiseE 2)); OSr 0 4; OSe 0 5; OCf 0].
 
